@@ -180,6 +180,11 @@ pub fn run_check(prop: &str, tier: &str) -> i32 {
             // ... and a clean close (the last handle dropped inside the controlled phase)
             acks.extend(c08::close_programs(thorough));
             schedprops::run_programs(acks, if thorough { 3 } else { 2 }, 4000, budget * 0.3, &judge, None, &["C02", "C03"], &mut report);
+            // more than one journal-sized batch behind a batch that fails, then a device that works again:
+            // nothing that was accepted may be missing from (or back in) the synced image
+            if report.violations.is_empty() {
+                c19::failed_backlog_for(&mut report, "C02");
+            }
         }
         "C03" => {
             let s = suites::crash_suites(thorough);
@@ -239,6 +244,10 @@ pub fn run_check(prop: &str, tier: &str) -> i32 {
             if report.violations.is_empty() {
                 batchfail::run(&["C05"], thorough, &mut report);
             }
+            // (5) extents of hundreds of blocks retired with live neighbours directly behind them
+            if report.violations.is_empty() {
+                batchfail::run_large_family(&["C05"], thorough, &mut report);
+            }
         }
         "C07" => {
             let bound = if thorough { 3 } else { 2 };
@@ -270,6 +279,7 @@ pub fn run_check(prop: &str, tier: &str) -> i32 {
             // batches that fail half-way, the retry, the refill: every key must read back its own bytes
             if report.violations.is_empty() {
                 batchfail::run(&["C08"], thorough, &mut report);
+                batchfail::run_large_family(&["C08"], thorough, &mut report);
             }
             // labelled sampling supplement: racing overwrites, then scan vs point read at quiescence
             if report.violations.is_empty() {
@@ -296,6 +306,8 @@ pub fn run_check(prop: &str, tier: &str) -> i32 {
             // batches that fail half-way and their retries (calls on full / failing devices) under the watchdog
             if report.violations.is_empty() {
                 batchfail::run(&["C18"], thorough, &mut report);
+                // closing a store whose device keeps failing (record writes only / every write / fsyncs), 1 and 2 workers
+                batchfail::run_close_on_failing_device(&mut report);
             }
             report.set("explanation", "termination oracle: an execution must end with every thread finished within the decision horizon; 'no enabled thread' is a deadlock, the horizon a livelock; contention programs cover concurrent flush callers, flush vs periodic tick, full device, reader held inside a read");
         }
